@@ -132,9 +132,9 @@ func c20Next(s c20State, k uint64) c20State {
 
 type c20Config struct {
 	name       string
-	buffer     int  // WriteBufferSize: 0 = every merge into the disk layer is flushed
-	journalFS  bool // journal in a file (on vos) instead of the key-value store
-	diffLayers int  // maxDiffLayers
+	buffer     int    // WriteBufferSize: 0 = every merge into the disk layer is flushed
+	journalFS  bool   // journal in a file (on vos) instead of the key-value store
+	diffLayers int    // maxDiffLayers
 	history    uint64 // StateHistory limit (0: keep everything)
 }
 
@@ -1077,7 +1077,11 @@ func TestVerif_C20(t *testing.T) {
 				tries = 40
 			}
 			for t := 0; t < tries; t++ {
-				ok := c20Explore(r, jobs[i].cfg, jobs[i].ops, p, seen, fd, tgt)
+				pj := p
+				if jobs[i].cfg.history != 0 {
+					pj.allKV = false // long linear histories: KV prefixes at operation boundaries and inside the last operation only
+				}
+				ok := c20Explore(r, jobs[i].cfg, jobs[i].ops, pj, seen, fd, tgt)
 				cmu.Lock()
 				if ok {
 					executed++
